@@ -248,3 +248,9 @@ def run(ctx):
         # the lower-casing happens before the name check (so the check sees what is sent)
         low = [n_ for n_ in astq.walk_fn(h2ph.node) if isinstance(n_, ast.Assign) and astq.text(n_.value) == "header.lower()"]
         ctx.ob(R6, h2ph.qual, "name is lower-cased before it is checked", bool(low) and bool(tn) and low[0].lineno < tn[0].lineno)
+
+    # ------------------------------------------------------------------ R7 shared with C11-R6
+    from .c11 import rule_r6
+
+    rule_r6(ctx)
+    ctx.rules["C11-R6"]["decides"] = "(shared with C11, here C10-R7) a Content-Length computed by urllib3 is len()/nbytes of the very object written: a shorter declared length lets the surplus bytes be parsed as a second request (smuggling) - " + ctx.rules["C11-R6"]["decides"]
